@@ -87,7 +87,7 @@ def gen_prelude(repo):
     prefix, _ = ex.split_after(body, "let (t, nanos) = match timestamp.duration_since(std::time::UNIX_EPOCH)")
     return ("\n// ---- mechanically extracted from " + DT + " (T4 prefix) ----\n"
             "fn __extracted_prelude(timestamp: std::time::SystemTime) -> (i64, u32) {\n" + prefix + "\n    (t, nanos)\n}\n"
-            "fn __extracted_civil(t: i64, nanos: u32) -> DateTime {\n" + _ + "\n}\n")
+            )
 
 
 PLAN = dict(
@@ -104,7 +104,7 @@ PLAN = dict(
                 obligations=["civil_from_secs", "lemma_calendar", "lemma_years", "lemma_leaps_shift", "lemma_leaps_step", "sanity",
                              "lemma_unix_day_strictly_monotone", "lemma_order_preserving", "lemma_year_mono", "lemma_year_step",
                              "lemma_doy_bounds", "lemma_doy_mono", "lemma_micros_truncate"],
-                paired=["c20_civil_window_bounded"], exec_fns=["civil_from_secs"])],
+                paired=["c20_boundary_instants_bounded"], exec_fns=["civil_from_secs"])],
     kani=[dict(
         crate="tracing-subscriber", tls_shim=True, tls_shim_crates=["tracing-core", "tracing-subscriber"], once_cell_stub=True,
         modules=[dict(name="__verif_c20", attach="inline", file=DT, modpath="fmt::time::datetime", files=["datetime.kani.rs"], generator="gen_prelude")],
